@@ -301,6 +301,9 @@ def find_loops(body):
     return res
 
 
+AUTO_RULES = []
+
+
 def annotate_loops(body, loops, unit):
     """loops: list of dicts {kind, inv (text: 'invariant ..., decreases ...'), it (iterator name, for loops)}.
     The number and kinds must equal those found (loop skeleton) else LostAnchor."""
@@ -347,6 +350,30 @@ def annotate_loops(body, loops, unit):
                 h = '__h%d' % k
                 head = 'let %s = %s;\n for __e in %s: &%s\n' % (h, expr, l['it'], h)
                 body = body[:st] + head + (l.get('inv') or '') + '\n{ let %s = %s;' % (pat, l['rebind']) + l.get('body_proof', '') + body[br + 1:]
+                continue
+            close = match_close(body, br)
+            inner = body[br + 1:close]
+            mvec = re.match(r'&\s*([\w\.]+)$', expr) or re.match(r'([\w\.]+)\.iter\(\)$', expr)
+            if re.search(r'\bcontinue\b', inner) and mvec:
+                # R27a (automatic): `for PAT in &VEC { .. continue .. }` - Verus for-loops do not support `continue` - becomes an index `while`
+                # over VEC with the index advanced BEFORE the body, so `continue` keeps its meaning and the loop invariant must hold on that
+                # path too.  The sidecar invariant is reused: `it.index@` is the loop index in the invariant and (index - 1) inside the body.
+                vec = mvec.group(1)
+                iv = '__i%d' % k
+                itn = l['it'] + '.index@'
+                inv = (l.get('inv') or '').replace(itn, iv)
+                extra = '%s <= %s.len(),' % (iv, vec)
+                if re.search(r'\binvariant\b', inv):
+                    inv = re.sub(r'\binvariant\b', 'invariant ' + extra, inv, count=1)
+                else:
+                    inv = 'invariant ' + extra + inv
+                if 'decreases' not in inv:
+                    inv = inv.rstrip().rstrip(',') + ',\n decreases %s.len() - %s,' % (vec, iv)
+                cur = '(%s - 1)' % iv
+                new = ('let mut %s: usize = 0;\n while %s < %s.len()\n %s\n{ let %s = &%s[%s]; %s = %s + 1;%s%s}'
+                       % (iv, iv, vec, inv, pat, vec, iv, iv, iv, l.get('body_proof', '').replace(itn, cur), inner.replace(itn, cur)))
+                body = body[:st] + new + body[close + 1:]
+                AUTO_RULES.append('R27a:%s:loop%d' % (unit, k))
                 continue
             head = 'for %s in %s: %s\n' % (pat, l['it'], expr)
         body = body[:st] + head + ' ' + (l.get('inv') or '') + '\n{' + l.get('body_proof', '') + body[br + 1:]
